@@ -318,6 +318,9 @@ func (x *Exec) verifyRoot() {
 		parts := []string{"(<= 1 " + x.rf + ")", "(< " + x.rf + " " + st.nr + ")"}
 		for _, m := range ct.Modifies {
 			v := sc.Eval(m.Expr)
+			if v.S != "" && v.T != nil {
+				x.assume(st, x.wf(v.S, v.T, st, 0))
+			}
 			reg, _ := x.regionOf(v)
 			reg = x.S.Define("modreg", "Int", reg)
 			x.modRegs = append(x.modRegs, reg)
